@@ -127,6 +127,18 @@ CHECKS["C20"] = dict(
           "oracle. Finding D12 (duplicate / out-of-range hours) is a known finding."),
     design="§7 C20")
 
+CHECKS["C13"] = dict(
+    technique="Lean 4 theorems on Model E (typed JSON encode/decode, traversal) + K-json correspondence with system_to_json / json_to_system",
+    text=("Proved in Lean: decode(encode m) = m with hourly inputs rounded to 3 decimals (same objects, ids, classes, links, "
+          "labels, sources, scalar inputs exactly) under the hypothesis the proof forces — no raw string equals an exported "
+          "id (counterexample proved and replayed on the real code: D19); the rounding is idempotent, hence re-export gives "
+          "the same JSON; every object reachable through links and lists is written (verified worklist traversal, for every "
+          "link graph); the version-9 handler commutes with loading. The model's encode and decode are compared with the "
+          "real exporter and loader object by object on every run (K-json). 'Results equal' and 'the loaded system is live' "
+          "are covered by the oracle (and by C01's theorems once the loaded graph is well formed). Findings: D14 fixed "
+          "(hourly rounding), D18 (api_call_response not loadable), D19."),
+    design="§7 C13")
+
 NOT_YET = {}
 
 
